@@ -268,7 +268,7 @@ func printDoc(d *ast.QueryDocument) string {
 }
 
 var DecorKinds = []string{"alias", "aliasSib", "aliasParent", "aliasId", "idAliased", "typename", "fragT", "fragN", "fragAbs", "id",
-	"incLit", "skipLitFalse", "skipVar", "incVar", "argVar", "argVarDefault", "argVarNull", "varTwice", "dup", "dupFirst", "named", "namedTwice", "opName"}
+	"incLit", "skipLitFalse", "skipVar", "incVar", "argVar", "argVarNamedId", "argVarDefault", "argVarNull", "varTwice", "dup", "dupFirst", "named", "namedTwice", "opName"}
 
 // Decorate returns all single-decoration variants of q.
 func Decorate(s *ast.Schema, q string) []Case {
@@ -404,7 +404,7 @@ func Decorate(s *ast.Schema, q string) []Case {
 				f.Directives = ast.DirectiveList{{Name: "include", Arguments: ast.ArgumentList{{Name: "if", Value: &ast.Value{Kind: ast.Variable, Raw: "s"}}}}}
 				op.VariableDefinitions = append(op.VariableDefinitions, &ast.VariableDefinition{Variable: "s", Type: ast.NonNullNamedType("Boolean", nil)})
 				vars["s"] = true
-			case "argVar", "argVarDefault", "argVarNull", "varTwice":
+			case "argVar", "argVarNamedId", "argVarDefault", "argVarNull", "varTwice":
 				if len(f.Arguments) == 0 || fd == nil {
 					ok = false
 					break
@@ -412,7 +412,11 @@ func Decorate(s *ast.Schema, q string) []Case {
 				a := f.Arguments[0]
 				ad := fd.Arguments.ForName(a.Name)
 				val, _ := a.Value.Value(nil)
-				vd := &ast.VariableDefinition{Variable: "v0", Type: ad.Type}
+				vname := "v0"
+				if k == "argVarNamedId" {
+					vname = "id" // the name the planner uses for the stitching id
+				}
+				vd := &ast.VariableDefinition{Variable: vname, Type: ad.Type}
 				switch k {
 				case "argVarDefault":
 					vd.DefaultValue = a.Value
@@ -422,9 +426,9 @@ func Decorate(s *ast.Schema, q string) []Case {
 					}
 					vars["v0"] = nil
 				default:
-					vars["v0"] = val
+					vars[vname] = val
 				}
-				a.Value = &ast.Value{Kind: ast.Variable, Raw: "v0"}
+				a.Value = &ast.Value{Kind: ast.Variable, Raw: vname}
 				op.VariableDefinitions = append(op.VariableDefinitions, vd)
 				if k == "varTwice" {
 					// the same field again under alias b with the same variable
